@@ -133,15 +133,28 @@ def effective_kinds(start, var):
     return kinds
 
 
+def station_order(ns, var):
+    """Registration order of the stations: a permutation given as a list, or "rev" / "shuffle" (any
+    number of stations).  The ids are ST-1..ST-n, so every order but the identity is also a
+    non-alphabetical one."""
+    order = list(range(1, ns + 1))
+    if not var.st_perm:
+        return order
+    if var.st_perm == "rev":
+        return order[::-1]
+    if var.st_perm == "shuffle":
+        random.Random("st-%s-%d" % (var.est_seed, ns)).shuffle(order)
+        return order
+    return [order[i] for i in var.st_perm]
+
+
 def station_phase(s, var):
     return [30, -90, 150][(s - 1) % 3] if var.constraints == "3ph" else 0
 
 
 def build_network(start, var, cls=RecordingNetwork):
     ns, volt = start["ns"], start["volt"]
-    order = list(range(1, ns + 1))
-    if var.st_perm:
-        order = [order[i] for i in var.st_perm]
+    order = station_order(ns, var)
     net = cls()
     kinds = effective_kinds(start, var)
     for s in order:
